@@ -1,7 +1,14 @@
 import TLVerif.Codec.Ops.Common
-/-! `codec.x1`: read TL1 (bare/boxed), re-write bare and boxed. -/
+import TLVerif.Codec.BytesVariant
+/-! `codec.x1`: read TL1 (bare/boxed), re-write bare and boxed.
+`codec.x1m <map|slice|strict> …`: the same through `readTL1M` (C10: `slice` = the `[]byte` variant's dictionaries). -/
 namespace TLVerif.Codec
 open TLVerif.Util TLVerif.Prim
+
+def wantsBytes (d : Desc) (filters : List String) (root : Nat) : Bool :=
+  d.names.any fun n =>
+    filters.any (fun f => if f.endsWith "." then n.tlname.startsWith f else n.tlname == f) &&
+    (d.reachList n.idx).contains root
 
 def handleTL1 : OpHandler := fun st op args =>
   match op, args with
@@ -17,6 +24,30 @@ def handleTL1 : OpHandler := fun st op args =>
         let w1 := if isUnion d ty then "n/a" else outBytes (writeTL1 d fuel ty true [] v)
         let w1b := if hasBoxed d ty then outBytes (writeTL1 d fuel ty false [] v) else "n/a"
         some s!"ok {bs.length - rest.length} w1={w1} w1b={w1b}"
+    | _, _, _ => some "bad-op"
+  | "x1m", [mode, sid, ty, _name, boxed, h] =>
+    match st.lookup sid, ty.toNat?, bytesOfHex h with
+    | some sc, some ty, some bs =>
+      -- `slice=<filter,filter>`: the `--generateByteVersions` white list; `CreateObjectBytes()` of a root that no
+      -- white-listed type reaches (`MarkWantsBytesVersion`, gengo_compile.go prepareGeneration) is the string variant
+      let d := sc.desc
+      let m? : Option (DictMode × Bool) :=
+        if mode == "map" then some (.map, false) else if mode == "strict" then some (.strict, true)
+        else if mode.startsWith "slice=" then
+          let filters := (mode.drop 6).toString.splitOn ","
+          some (.slice, wantsBytes d filters ty)
+        else none
+      match m? with
+      | none => some "bad-op"
+      | some (m, wants) =>
+        let fuel := fuelFor d bs.length
+        let bare := boxed != "1"
+        match readTL1M m (fun t => wants && d.hasBytesVersion t) sc.cfg d fuel ty bare [] bs with
+        | .error e => some (errStr e)
+        | .ok (v, rest) =>
+          let w1 := if isUnion d ty then "n/a" else outBytes (writeTL1 d fuel ty true [] v)
+          let w1b := if hasBoxed d ty then outBytes (writeTL1 d fuel ty false [] v) else "n/a"
+          some s!"ok {bs.length - rest.length} w1={w1} w1b={w1b}"
     | _, _, _ => some "bad-op"
   | "cert", [sid, ty] =>
     -- T3: decidable hypotheses of the TL1 theorems, evaluated on the descriptor the kernel exported, on the
